@@ -100,3 +100,25 @@ Definition check_apply (c : dt * attrs * bool * list num * obs) : bool :=
   | Err e1, Err e2 => errk_eqb e1 e2
   | _, _ => false
   end.
+
+(* bounds / node coordinates / any variable masked through its parent construct:
+   (data type, own attributes, parent's attributes, unpack, raw values,
+    masked read as observed, read(mask=False).apply_masking() as observed).
+   The masked read of the child is judged against read_model with the child's own
+   attributes, the apply_masking result against the PropertiesDataBounds model with the
+   child's own default fill value recorded. *)
+Definition obs_ok (d : dt) (A : attrs) (unpack : bool) (raw : list num)
+           (m : dt * list (option num)) (o : obs) : bool :=
+  match o with
+  | Ok (odt, ovals) => dt_eqb (fst m) odt && elems_ok (map (exact_elem d A unpack) raw) (snd m) ovals
+  | Err _ => false
+  end.
+
+Definition check_child (c : dt * attrs * attrs * bool * list num * obs * obs) : bool :=
+  let '(db, Ab, Ap, unpack, raw, oread, oapp) := c in
+  obs_ok db Ab unpack raw (read_model db Ab true unpack raw) oread
+  && match apply_masking_bounds db db Ab Ap unpack raw, oapp with
+     | Ok m, Ok _ => obs_ok db Ab unpack raw m oapp
+     | Err e1, Err e2 => errk_eqb e1 e2
+     | _, _ => false
+     end.
